@@ -7,7 +7,7 @@ use super::sendbody::{send_body_call, send_body_flow};
 use crate::engine::{guarded, pattern, Report, Tier, Violation};
 use crate::refmodel::chunked::decode_strict;
 
-pub const RULE: &str = "chunked: every output length b in 6..=11000 and +-12 around k*10248 (k<=3) x input lengths {1..=64 (thorough 1..=320), 100, 255..257, 1000, 4095..4097, 10239..10241, 20480, 20481, 30000} u {b-6..=b+2}, each pair one real write on a fresh writer (front ends: Flow of a POST, Call, Flow of a DELETE with send-body-despite-method); sized: b,i in 1..=300, plus fixed-buffer loops with Content-Length around 2^32, 2^33, 2^40, u64::MAX; plus whole-body caller loops with a fixed buffer. distinct = distinct (mode, consumed==input, chunks emitted, hex digits) classes";
+pub const RULE: &str = "chunked: every output length b in 6..=11000 and +-12 around k*10248 (k<=3) x input lengths {1..=64 (thorough 1..=320), 100, 255..257, 1000, 4095..4097, 10239..10241, 20480, 20481, 30000} u {b-6..=b+2}, each pair one real write on a fresh writer (front ends: Flow of a POST, Call, Flow of a DELETE with send-body-despite-method); the same rows for b in 6..=64 u {100,1000,4103,10248,10253} from non-initial states: after an earlier write of {1,3} bytes into a buffer of 0..=12 bytes in the same state, and after two superfluous head writes (buffers {0,4,5,6,4096}) in the state before; sized: b,i in 1..=300, plus fixed-buffer loops with Content-Length around 2^32, 2^33, 2^40, u64::MAX; plus whole-body caller loops with a fixed buffer. distinct = distinct (mode, consumed==input, chunks emitted, hex digits) classes";
 
 fn bs() -> Vec<usize> {
     let mut v: Vec<usize> = (6..=11000).collect();
@@ -42,6 +42,17 @@ fn write_once(i: usize, b: usize, front: &str, input: &[u8]) -> Result<(usize, S
         let mut out = vec![0u8; b];
         let r = if front == "flow" {
             let mut f = send_body_flow(None);
+            f.write(&input[..i], &mut out)
+        } else if let Some(h) = front.strip_prefix("flow+prior:") {
+            // an earlier write(i0 bytes, b0-byte buffer) in the same SendBody state
+            let (i0, b0) = h.split_once(':').map(|(a, b)| (a.parse::<usize>().unwrap_or(1), b.parse::<usize>().unwrap_or(0))).unwrap_or((1, 0));
+            let mut f = send_body_flow(None);
+            let mut out0 = vec![0u8; b0];
+            let _ = f.write(&input[..i0], &mut out0);
+            f.write(&input[..i], &mut out)
+        } else if let Some(h) = front.strip_prefix("flow+headwrites:") {
+            // further SendRequest writes after the head was complete, before entering SendBody
+            let mut f = super::sendbody::send_body_flow_extra_head_writes(h.parse::<usize>().unwrap_or(0));
             f.write(&input[..i], &mut out)
         } else if front == "flow-despite" {
             let mut f = super::sendbody::send_body_flow_despite("DELETE");
@@ -249,6 +260,15 @@ pub fn run(tier: Tier) -> Report {
             jobs.push((b, f));
         }
     }
+    // the same rows from non-initial states (reduced buffer set): after an earlier small write in the
+    // same state, and after superfluous head writes in the state before
+    let hist_fronts: Vec<String> = [1usize, 3].iter().flat_map(|i0| (0..=12usize).map(move |b0| format!("flow+prior:{}:{}", i0, b0))).chain([0usize, 4, 5, 6, 4096].iter().map(|b| format!("flow+headwrites:{}", b))).collect();
+    let hist_fronts: Vec<&'static str> = hist_fronts.into_iter().map(|s| &*Box::leak(s.into_boxed_str())).collect();
+    for f in &hist_fronts {
+        for b in (6..=64usize).chain([100, 1000, 4103, 10248, 10253]) {
+            jobs.push((b, f));
+        }
+    }
     let parts: Vec<Report> = jobs
         .par_chunks(64)
         .map(|chunk| {
@@ -328,6 +348,7 @@ pub fn run(tier: Tier) -> Report {
     }
     rep.sample(json!({"loop": {"body_len": 25000, "buffer_len": 10253, "chunked": true}}));
     rep.guard("some write consumes only part of its input", false);
+    rep.guard("rows from non-initial states evaluated", hist_fronts.len() == 31);
     rep.extra("buffer_lengths", json!(bs.len()));
     rep.extra("loops", json!(loops.len()));
     rep
